@@ -312,3 +312,48 @@ func HarnessMalformed() {
 	}
 	verif.Reach("malformed-done")
 }
+
+// HarnessWSFrames: over WebSocket every request frame bearing a valid id gets
+// exactly one response frame (conforming to the same rules), and a notification
+// gets none, whatever its method / params shape.
+func HarnessWSFrames() {
+	srv, h := newServer()
+	pc := verif.DialRaw(srv, nil)
+	m, e := mkElem("", verif.Bound("grammar", 2))
+	verif.Assume(e.idKind != 3 || e.idNum != 424242)
+	body, _ := json.Marshal(m)
+	pc.Send(body)
+	verif.Quiesce() // whatever the element causes has been written by now (calls are served concurrently)
+	// a probe with a known id delimits what belongs to the element
+	pc.Send([]byte(`{"jsonrpc":"2.0","id":424242,"method":"H.Val","params":[1]}`))
+	var frames []json.RawMessage
+	for i := 0; i < 3; i++ {
+		b, ok := pc.Recv()
+		verif.Assert(ok, "connection-stays-up")
+		if !ok {
+			return
+		}
+		var probe struct {
+			ID interface{} `json:"id"`
+		}
+		json.Unmarshal(b, &probe)
+		if f, isNum := probe.ID.(float64); isNum && f == 424242 {
+			break
+		}
+		frames = append(frames, json.RawMessage(b))
+	}
+	verif.Assert(h.ran == expectRuns(e)+1, "handler-runs")
+	switch {
+	case e.idBearing:
+		verif.Assert(len(frames) == 1, "exactly-one-response-frame-per-id-bearing-request")
+		if len(frames) == 1 {
+			checkReply(frames[0], e, "ws-")
+		}
+	default:
+		// notifications and frames whose id is not a valid id are never answered over WebSocket
+		verif.Assert(len(frames) == 0, "no-response-frame-for-notification")
+	}
+	pc.CloseGraceful()
+	verif.Quiesce()
+	verif.Reach("ws-frames-done")
+}
